@@ -364,6 +364,26 @@ func replayFile(path string) int {
 		fmt.Println("replay:", err)
 		return 2
 	}
+	if k, _ := rec["kind"].(string); k == "bounded" {
+		// a bounded complement: the failing case is in the recorded output; re-run the in-package test on the real code
+		fmt.Printf("bounded complement %v (%v)\nrecorded output:\n%v\n", rec["name"], rec["bound"], rec["output"])
+		file, _ := rec["file"].(string)
+		pkg, _ := rec["package"].(string)
+		pat, _ := rec["pattern"].(string)
+		if file == "" {
+			return 1
+		}
+		e := newEngine(envOr("GOWP_REPO", "/repo"), envOr("GOWP_VERIF", "/verif"))
+		b := e.boundedOverlay(fmt.Sprint(rec["name"]), file, pkg, pat, fmt.Sprint(rec["bound"]))
+		fmt.Println("re-run:", b["result"])
+		if b["result"] == "fail" {
+			fmt.Println(b["output"])
+			fmt.Println("violation reproduced on the real code")
+			return 1
+		}
+		fmt.Println("violation not reproduced")
+		return 0
+	}
 	fmt.Printf("obligation: %v\nposition:   %v\nverdict:    %v\n", rec["obligation"], rec["pos"], rec["verdict"])
 	rp, ok := rec["replay"].(map[string]interface{})
 	if !ok {
